@@ -197,9 +197,15 @@ def world_B(tier):
                 reg = MOD.tx_region(U5[:u5], c, U3[:u3], cuts)
                 if not first_block_ok(reg, f):
                     continue
-                for strand in "+-":
-                    for table, fl in tabfl:
-                        yield "B", one_gene_case([reg], strand, "protein_coding", [f], u5, u3, table, fl)
+                regs = [reg]
+                if any(g == 0 for _, g in cuts):
+                    # the same bases with the adjacent EXON blocks given as one block while the CDS keeps its adjacent
+                    # blocks (a split CDS row inside one exon): the exon structure no longer announces that the CDS needs merging
+                    regs.append(dict(reg, exons=[tuple(r) for r in M.runs(M.S(tuple(reg["exons"])))]))
+                for reg_ in regs:
+                    for strand in "+-":
+                        for table, fl in tabfl:
+                            yield "B", one_gene_case([reg_], strand, "protein_coding", [f], u5, u3, table, fl)
     # non-coding transcripts: every structure x biotype
     nc = "ACGTAC" if tier == "quick" else "ACGTACG"
     for cuts in cut_sets(len(nc), 2, gaps):
@@ -225,6 +231,9 @@ def gene_menu():
     ]
 
 
+NO_SYMBOL = (2, 3, 7)  # menu genes without a gene symbol (an optional identifier): coding and non-coding, with and without own locus tag
+
+
 def multi_gene_coll(picks, order_rev, seqname="chrV", spacer=1, tag_base="L"):
     """lay the picked menu genes left to right; -> collection dict"""
     menu = gene_menu()
@@ -236,7 +245,7 @@ def multi_gene_coll(picks, order_rev, seqname="chrV", spacer=1, tag_base="L"):
         text, txs = MOD.place(regions, strand, len(genome))
         genome += text
         genes.append({
-            "type": gtype, "strand": strand, "symbol": f"sym{gi}", "locus_tag": f"{tag_base}{gi}" if gi % 2 else None,
+            "type": gtype, "strand": strand, "symbol": None if gi in NO_SYMBOL else f"sym{gi}", "locus_tag": f"{tag_base}{gi}" if gi % 2 else None,
             "txs": [{"exons": ex, "cds": cd, "f0": f0s[i] if cd is not None else None, "product": (products or {}).get(i)} for i, (ex, cd) in enumerate(txs)],
         })
     order = list(range(len(picks)))
